@@ -232,7 +232,8 @@ def r5_xarray_stack(ctx):
         ret = Obj("xarray.DataArray", {"sizes": {"NEW": 2, "d0": 3, "d1": 4, "d2": 5}}, name="CONCAT")
         ip = Interp(repo, call_models={"xarray.concat": lambda run, a, k, n, f, _r=ret: run.__dict__.setdefault("m_ret", __import__("copy").deepcopy(_r)),
                                        "numpy.any": lambda run, a, k, n, f: False})
-        paths = ip.explore(fi, args={"arrays": (Sym("A0"), Sym("A1")), "dim": "NEW", "axis": axis, "method_kwargs": {}})
+        arrs = tuple(Obj("xarray.DataArray", {"sizes": {"d0": 3, "d1": 4, "d2": 5}}, name=f"A{i}") for i in range(2))
+        paths = ip.explore(fi, args={"arrays": arrs, "dim": "NEW", "axis": axis, "method_kwargs": {}})
         ctx.evals(len(paths))
         for p in paths:
             if p.exit[0] != "return":
